@@ -46,7 +46,7 @@ fn main() {
         }
         check_batch::<B>(&ops, loc)
     }));
-    let lspec = if quick { Spec::lax(2, 1, 1, 2, 2, 1, 1, 1) } else { Spec::lax(2, 1, 2, 2, 2, 2, 2, 1) };
+    let lspec = if quick { Spec::lax(2, 1, 1, 2, 2, 1, 1, 1) } else { Spec::lax(2, 1, 2, 2, 1, 1, 2, 1) };
     let lu = lspec.universe().all();
     let ln = lu.len() as u64;
     ctx.run_slice(Slice::new(format!("lax-typed-pairs[{}^2]", lspec.name()), ln * ln, |i, loc| check_lax_pair(&lu[(i / ln) as usize], &lu[(i % ln) as usize], loc)));
